@@ -10,7 +10,7 @@ LEVEL_TEXT = ("Static structural proof of necessary conditions: (R20.1) in Event
               "in the open-process table is given an end (popped-and-ended, or ended by the final sweep), duration "
               "events get their end before they are listed, and the context extraction runs only after the sweep. "
               "Interval arithmetic, boundary cases, equal-onset rows and Delay shifting are NOT decided.")
-LEVEL_EXTRA = "Added after the seeded evaluation: (R20.3) after Delay splitting, counts come from the split table; (R20.4) fresh index per Delay-shifted group; (R20.5) every access to the open-process table case-folds the definition name. (R20.6) the type/definition filter of unfold_context mutates neither its argument nor the manager's state. (R20.7) the context range of a process starts at the next time point, computed from the onsets. R20.3 also covers the consumers of the event manager (results sized by its time points, not by the input table). (R20.8) no join over a de-duplicated collection where row/process texts are combined. (R20.9) a parameter is handed on to every repository callee that takes a parameter of the same name (11 frozen exceptions package-wide)."
+LEVEL_EXTRA = "Added after the seeded evaluation: (R20.3) after Delay splitting, counts come from the split table; (R20.4) fresh index per Delay-shifted group; (R20.5) every access to the open-process table case-folds the definition name. (R20.6) the type/definition filter of unfold_context mutates neither its argument nor the manager's state. (R20.7) the context range of a process starts at the next time point, computed from the onsets. R20.3 also covers the consumers of the event manager (results sized by its time points, not by the input table). (R20.8) no join over a de-duplicated collection where row/process texts are combined. (R20.9) a parameter is handed on to every repository callee that takes a parameter of the same name (11 frozen exceptions package-wide). (R20.10) every Def/Def-expand row mask of the column-wise helpers is case-insensitive."
 
 
 def _raising_guard(ctx, fi, word):
@@ -273,6 +273,11 @@ def run(ctx):
     from sa.forward import check_forwarding
     nfw = check_forwarding(ctx, "R20.9", [f for f in prog.functions.values() if f.module.name.startswith(('hed.tools.analysis',))], 'e.g. remove_types, the schema')
     ctx.floor("R20.9", "same-named parameter sites", nfw, 1)
+
+    # ---------------- R20.10: Def-expand groups of any letter case are shrunk before the temporal scan
+    ctx.rule("R20.10", "every Def/Def-expand row mask of the column-wise helpers is case-insensitive")
+    from sa.idioms import check_def_masks_case_insensitive
+    check_def_masks_case_insensitive(ctx, "R20.10")
 
 
 def join_dedupe_rule(ctx, rule, modules, floor):
